@@ -9,7 +9,8 @@
      D     the decisions of the current cycle in the order the scheduler issued them:
            Cache.Bind / Cache.Evict / Cache.TaskPipelined calls (kind, pod, node, groups, ok,
            action, statement)
-     qi    fair-share state of the session (deserved, fair share, ... per queue)
+     qi    fair-share state of the session (deserved, fair share, ... per queue) and its node / queue
+           accounting right after OpenSession; qe = the same after the last action of the cycle
    Everything the properties compare the scheduler against ("ground truth") is a
    set-comprehension over (scen, S, D) written here, never a value the scheduler computed.
 
@@ -17,9 +18,9 @@
    queue GPU quantities in milli-GPUs; indices are 1-based, 0 = none.                    *)
 EXTENDS Integers, Sequences, FiniteSets, FiniteSetsExt, SequencesExt, TLC
 
-VARIABLES scen, S, resv, D, qi, cyc, action, doneActs, failed, hist, panic
+VARIABLES scen, S, resv, D, qi, qe, cyc, action, doneActs, failed, hist, panic
 
-cvars == <<scen, S, resv, D, qi, cyc, action, doneActs, failed, hist, panic>>
+cvars == <<scen, S, resv, D, qi, qe, cyc, action, doneActs, failed, hist, panic>>
 
 Sum(S_, f(_)) == MapThenSumSet(f, S_)
 Max2(a, b) == IF a > b THEN a ELSE b
@@ -290,6 +291,10 @@ ResolvedMinRt(i) ==
 \* protection of one kind does not restrict the other
 ActiveAfterKind(j, kind) ==
   Cardinality({p \in PodsOf(j) : ActiveAtStart(p) /\ ~\E x \in Dec : EvictOK(x) /\ D[x].p = p /\ D[x].mdact = kind})
+\* a victim holds capacity: it occupied a node at the cycle start or was bound earlier in the cycle.
+\* Evicting a pod that is only nominated (pending in the API) deletes a pending pod and frees nothing.
+C06_VictimHolds == \A i \in Dec : D[i].k = "evict" =>
+   LET x == LastRel(D[i].p, i - 1) IN IF x = 0 THEN S[D[i].p].st \in OccSt ELSE ~Piped(x)
 C06_MinRuntime ==
   (AtCycleEnd /\ ~failed /\ cyc = 1) => \A i \in Dec : (IsVictimEvict(i) /\ D[i].mdact \in {"reclaim", "preempt"}) =>
      LET j == JobOf(D[i].p) IN
@@ -606,11 +611,17 @@ C09_SessionContract ==
 (* C13 (as observable on the Cache calls of real cycles): committing emits  *)
 (* each pod at most once per call kind and statement.                      *)
 (***************************************************************************)
+NominatedAtC13(i) == LET x == LastRel(D[i].p, i - 1) IN IF x = 0 THEN S[D[i].p].st \notin OccSt ELSE Piped(x)
 C13_OncePerCommit ==
   \A i, k \in Dec : (i < k /\ D[i].stmt # 0 /\ D[i].stmt = D[k].stmt /\ D[i].act = D[k].act /\ D[i].k = D[k].k) => D[i].p # D[k].p
 \* within one cycle a pod is evicted at most once and bound at most once
 C13_OncePerCycle ==
-  \A i, k \in Dec : (i < k /\ D[i].k = D[k].k /\ D[i].k \in {"bind", "evict"} /\ D[i].ok = 1 /\ D[k].ok = 1) => D[i].p # D[k].p
+  \A i, k \in Dec : (i < k /\ D[i].k = D[k].k /\ D[i].k \in {"bind", "evict"} /\ D[i].ok = 1 /\ D[k].ok = 1
+                      /\ ~(D[k].k = "evict" /\ NominatedAtC13(k))) => D[i].p # D[k].p
+\* the excluded pairs: a victim that a statement moved (evicted and re-nominated) is evicted again by a
+\* later statement of the cycle while it is only nominated (known finding, see C06_VictimHolds)
+C13_EvictedAgainWhileNominated ==
+  \A i, k \in Dec : (i < k /\ D[i].k = "evict" /\ D[k].k = "evict" /\ D[i].ok = 1 /\ D[k].ok = 1 /\ NominatedAtC13(k)) => D[i].p # D[k].p
 
 (***************************************************************************)
 (* C15 - no eviction livelock in a closed system: the canonical cluster    *)
@@ -666,6 +677,51 @@ C14_SnapshotQueues ==
     /\ qi.q[q].allocC = QCpu(q, 0, FALSE)
     /\ qi.q[q].allocM = QMem(q, 0, FALSE)
     /\ qi.q[q].npG = AccGpu(q, TRUE)
+
+(***************************************************************************)
+(* C14 (end of the cycle): after the last action the session's accounting   *)
+(* equals the truth recomputed from the API objects of the cycle start and   *)
+(* the decisions that reached the cache - whatever the actions simulated,    *)
+(* rolled back or discarded in between left no trace. A pod holds its node   *)
+(* from its (successful) bind or from the cycle start on, also after its     *)
+(* eviction (releasing); a nominated pod is added to Used and taken from     *)
+(* Releasing, not from Idle. Judged without API write failures (their        *)
+(* cleanup paths are judged by the Stmt stage).                              *)
+(***************************************************************************)
+AtSessionEnd == qe # <<>> /\ ~failed
+LastEv(p) == LastRel(p, Len(D))
+HoldsEnd(n) == {p \in Pods : Occupies(p, n) \/ \E i \in Dec : BindOK(i) /\ D[i].p = p /\ D[i].n = n}
+EvictedAfterHold(p) == \E i \in Dec : EvictOK(i) /\ D[i].p = p
+ReleasingEnd(n) == {p \in HoldsEnd(n) : S[p].st = "terminating" \/ EvictedAfterHold(p)}
+PipedEnd(n) == {p \in Pods : LastEv(p) # 0 /\ Piped(LastEv(p)) /\ D[LastEv(p)].n = n}
+\* an eviction of a pod that holds nothing: pending at the cycle start and never bound before the
+\* eviction - it was only nominated earlier in the cycle (see C06_VictimHolds)
+\* (also a victim that an earlier statement of the cycle moved: evicted and re-nominated elsewhere)
+NominatedAt(i) == LET x == LastRel(D[i].p, i - 1) IN IF x = 0 THEN S[D[i].p].st \notin OccSt ELSE Piped(x)
+NominatedEvicted == \E i \in Dec : D[i].k = "evict" /\ NominatedAt(i)
+EndNodeCpuOK ==
+  \A n \in Nodes : qe.n[n].present = 1 =>
+    /\ qe.n[n].uc = Sum(HoldsEnd(n), EffCpu) + Sum(PipedEnd(n), EffCpu)
+    /\ qe.n[n].ic = N(n).cpu - Sum(HoldsEnd(n), EffCpu)
+    /\ qe.n[n].rc = Sum(ReleasingEnd(n), EffCpu) - Sum(PipedEnd(n), EffCpu)
+EndNodeMemOK ==
+  \A n \in Nodes : qe.n[n].present = 1 =>
+    /\ qe.n[n].um = Sum(HoldsEnd(n), LAMBDA p : P(p).mem) + Sum(PipedEnd(n), LAMBDA p : P(p).mem)
+    /\ qe.n[n].im = N(n).mem - Sum(HoldsEnd(n), LAMBDA p : P(p).mem)
+    /\ qe.n[n].rm = Sum(ReleasingEnd(n), LAMBDA p : P(p).mem) - Sum(PipedEnd(n), LAMBDA p : P(p).mem)
+C14_EndNodeCpu == (AtSessionEnd /\ ~NominatedEvicted) => EndNodeCpuOK
+C14_EndNodeMem == (AtSessionEnd /\ ~NominatedEvicted) => EndNodeMemOK
+\* the same in cycles in which a merely nominated pod was "evicted": the node then charges Idle for a
+\* pod that holds nothing (known finding)
+C14_EndNodeAfterNominatedEviction == (AtSessionEnd /\ NominatedEvicted) => (EndNodeCpuOK /\ EndNodeMemOK)
+\* queues are charged for what is allocated or nominated and not (being) evicted
+AccGpuEnd(q, np) == Sum({p \in ChargedAfter(Len(D)) : InSubtree(p, q) /\ (np => J(JobOf(p)).preempt = 0)}, LAMBDA p : Centi(GpuMilli(p)))
+C14_EndQueues ==
+  AtSessionEnd => \A q \in Queues : qe.q[q].present = 1 =>
+    /\ qe.q[q].allocC = QCpu(q, Len(D), FALSE)
+    /\ qe.q[q].allocM = QMem(q, Len(D), FALSE)
+    /\ qe.q[q].allocG = AccGpuEnd(q, FALSE)
+    /\ qe.q[q].npG = AccGpuEnd(q, TRUE)
 
 (***************************************************************************)
 (* C10 (observed here too): a cycle never panics                           *)
